@@ -5,6 +5,7 @@ from engine import *
 import ordimpls
 import provenance
 import guards
+import writes
 import mutations
 import accessors
 import re as _re
@@ -777,3 +778,4 @@ RULES.append(('16.R', 'state resets: every reviewed constant write to persistent
 RULES.append(('16.M', 'collection mutations: every reviewed (function, stored collection, mutator class: add / remove / filter / empty / swap / order) triple is still present - an entry that is no longer removed, inserted or drained on one path (rules/mutations.py)', lambda F: mutations.for_property(F, 'C16', '16.M')))
 RULES.append(('16.A', 'enum accessors agree across sibling variants: an accessor that returns the payload field `x` for one variant returns it for every variant whose payload carries a field of that name and type (a variant moved to the `=> None` arm) - rules/accessors.py', lambda F: accessors.for_property(F, 'C16', '16.A')))
 RULES.append(('16.G', 'guard census: no reviewed call of a workspace function and no reviewed mutation of a stored collection gained a controlling branch condition (an added `&& cond`, early return / continue, more specific match arm in front of an act); counts per call site, name free (rules/guards.py)', lambda F: guards.for_property(F, 'C16', '16.G')))
+RULES.append(('16.W', 'field assignments: every reviewed (function, Type.field) direct assignment is still made - state that a path no longer updates, or updates only conditionally (get_or_insert for an overwrite); generalises NN.R (rules/writes.py)', lambda F: writes.for_property(F, 'C16', '16.W')))
